@@ -500,7 +500,7 @@ func runC04(c *Ctx, r *Rec) {
 			r.ok("D5-capacity-agreement", c.fdName(fd), c.pos(fd.Pos()), "reads len(channel), which the language bounds by the capacity")
 		}
 	}
-	r.floor("D5-capacity-agreement", 3)
+	r.floorSoft("D5-capacity-agreement", "collection.QueueLike/capacity-sites", "fewer places than on the reference tree create the channel or read its length in the class and instance methods (moved into a private function)")
 }
 
 func runC05(c *Ctx, r *Rec) {
@@ -516,10 +516,42 @@ func runC05(c *Ctx, r *Rec) {
 	// ---- D1 stable rendez-vous
 	construct := "collection.QueueLike/" + qr.roleOf(qr.chanF)
 	if ws := fw[qr.chanF.Origin()]; len(ws) > 0 {
+		// named by the public operations from which the write is reached (private workers and
+		// helpers are the refactorer's business)
+		cg := c.sameTypeCallGraph(qr.q)
 		var where []string
 		for _, w := range ws {
-			where = append(where, w.In.Name.Name)
+			target := w.In.Name.Name
+			if ast.IsExported(target) {
+				where = append(where, target)
+				continue
+			}
+			found := false
+			for _, name := range sortedKeys(ms) {
+				if !ast.IsExported(name) {
+					continue
+				}
+				seen := map[string]bool{name: true}
+				for work := []string{name}; len(work) > 0 && !seen[target]; {
+					cur := work[0]
+					work = work[1:]
+					for callee := range cg[cur] {
+						if !seen[callee] && (!ast.IsExported(callee) || callee == target) {
+							seen[callee] = true
+							work = append(work, callee)
+						}
+					}
+				}
+				if seen[target] {
+					where = append(where, name)
+					found = true
+				}
+			}
+			if !found {
+				where = append(where, target)
+			}
 		}
+		sort.Strings(where)
 		where = dedup(where)
 		o := r.fail("D1-stable-rendezvous", construct, c.pos(qr.chanF.Pos()),
 			fmt.Sprintf("the channel that AddValue/RemoveHead block on is replaced in %s (at %s): a goroutine parked on the old channel is never woken by operations on the new one", strings.Join(where, ", "), c.pos(ws[0].Pos)))
